@@ -6,11 +6,21 @@
    (same registry, buffers, configuration) — for every oracle, fault stream and
    history whose internal / stream types exist in the older protocol, outside the
    documented exception (22 towards 2.2), which is shown to be necessary.
-   PARTIAL: across the major line (1.x -> 2.x) only the table facts are proved
-   (C19_major: each 2.x chain is the 1.x chain under protocol_20 / 22 layers); the
-   two real gateways are compared by the correspondence run. *)
+   Across the major line (1.x -> 2.x) the statement is proved as a SIMULATION too
+   (C19_major_history): a gateway pinned to a 1.x protocol and one pinned to a 2.x
+   protocol, both with a known version, equal in registry, sleep buffer and
+   configuration (the 2.x request markers are not compared), give operation by
+   operation the same outcome and the same writes — as long as no step of the 1.x run
+   ends in a missing-node/child error ("no unknown node or child is referenced"), no
+   gateway-ready message occurs (type 14, the property's own exception) and no version
+   report re-pins the gateways (type 2 / the gateway's own presentation).  Every 2.x
+   chain of a 1.x handler name is the 1.x chain under protocol_20 / 22 layers
+   (C19_major_layers, computed on the generated tables), which are no-ops but for
+   clearing the request marker (C19_major_noop1 / 2).
+   Not covered by the theorems: histories in which a version report switches a gateway
+   between the major lines (the two real gateways are compared by the correspondence run). *)
 From Coq Require Import List NArith ZArith Bool String.
-From AMS Require Import Models Codec GatewayFacts GatewayInv GatewaySteps TablesMono GatewaySim.
+From AMS Require Import Models Codec GatewayFacts GatewayInv GatewaySteps TablesMono GatewaySim GatewayMajor GatewaySimMajor.
 Import ListNotations.
 Local Open Scope Z_scope.
 
@@ -92,6 +102,36 @@ Proof.
   destruct E as [ns E]. rewrite E. repeat split; reflexivity.
 Qed.
 Print Assumptions C19_heartbeat_22.
+
+(* ---------- across the major line: the 2.x layers ---------- *)
+
+Theorem C19_major_layers :
+  forall p q n c1,
+    In p [proto_1_4; proto_1_5] -> In q [proto_2_0; proto_2_1; proto_2_2] ->
+    lookup_chain (pt_incoming p) n = Some c1 ->
+    exists layers, lookup_chain (pt_incoming q) n = Some (layers ++ c1)
+      /\ forallb (if is_l1_name n then layer_ok n else layer2_ok n) layers = true.
+Proof. exact major_chain. Qed.
+Print Assumptions C19_major_layers.
+
+(* "as long as no unknown node or child is referenced": when the wrapped 1.x chain does not end
+   in a missing-node/child error, the 2.x chain gives exactly its result, from the state with
+   the marker (node, child, 19) cleared *)
+Theorem C19_major_noop1 :
+  forall bat vlt now name c1 m layers s,
+    forallb (layer_ok name) layers = true ->
+    not_missing (fst (run_chain1 bat vlt now name c1 m (strip name layers m s))) ->
+    run_chain1 bat vlt now name (layers ++ c1) m s = run_chain1 bat vlt now name c1 m (strip name layers m s).
+Proof. exact layers_noop1. Qed.
+Print Assumptions C19_major_noop1.
+
+Theorem C19_major_noop2 :
+  forall bat vlt now name c1 m layers s,
+    forallb (layer2_ok name) layers = true ->
+    not_missing (fst (run_chain2 bat vlt now name c1 m s)) ->
+    run_chain2 bat vlt now name (layers ++ c1) m s = run_chain2 bat vlt now name c1 m s.
+Proof. exact layers_noop2. Qed.
+Print Assumptions C19_major_noop2.
 
 (* ---------- the simulation ---------- *)
 
@@ -180,3 +220,75 @@ Example C19_exception_necessary :
   let ops := [OSend (mk_msg 1 0 1 0 2 (lit "1")) true []; ORecv (lit "1;255;3;0;22;500") []] in
   map snd (trace sim_bat sim_vlt 0 (pin "2.1" 3 sim_w0) ops) <> map snd (trace sim_bat sim_vlt 0 (pin "2.2" 4 sim_w0) ops).
 Proof. vm_compute. discriminate. Qed.
+
+(* ---------- the simulation across the major line ---------- *)
+
+Theorem C19_major_pairs :
+  forallb (fun p => forallb (major_agree_b [2; 14] p) [proto_2_0; proto_2_1; proto_2_2]) [proto_1_4; proto_1_5] = true
+  /\ major_agree_b [2] proto_1_5 proto_2_0 = false.
+Proof. exact major_pairs_agree. Qed.
+Print Assumptions C19_major_pairs.
+
+(* the hypothesis on a history: every received line that decodes carries a type of the older
+   protocol outside [except] and is not the gateway's own presentation; and no step of the 1.x
+   run ends in a missing-node/child error *)
+Fixpoint major_history_ok bat vlt now (except : list Z) (i : nat) (w : world) (ops : list op) : Prop :=
+  match ops with
+  | [] => True
+  | o :: r =>
+      match o with
+      | ORecv line _ => forall m, decode (proto_at i) line = DecOk m -> in_older_m except (proto_at i) m
+      | _ => True
+      end
+      /\ nm_outcome (snd (fst (step_op bat vlt now w o)))
+      /\ major_history_ok bat vlt now except i (world_after bat vlt now w o) r
+  end.
+
+Theorem C19_major_history :
+  forall bat vlt now except i j ops w w',
+    major_agree_b except (proto_at i) (proto_at j) = true ->
+    major_history_ok bat vlt now except i w ops ->
+    Rmw i j w w' ->
+    Forall2 (fun x x' => outcome_rel (fst x) (fst x') /\ snd x = snd x')
+            (trace bat vlt now w ops) (trace bat vlt now w' ops)
+    /\ Rmw i j (run_ops bat vlt now w ops) (run_ops bat vlt now w' ops).
+Proof.
+  intros bat vlt now except i j ops w w' Hp Hh Hw. apply sim_history_m; [|exact Hw].
+  clear Hw w'. revert w Hh. induction ops as [|o r IH]; intros w Hh; cbn [hist_ok]; [exact I|].
+  destruct Hh as [H1 [H2 H3]]. split; [|split; [exact H2|apply IH; exact H3]].
+  destruct o as [line faults|m b faults|]; cbn [op_agree_m]; try exact I.
+  apply (line_agree_m_of_tables except); assumption.
+Qed.
+Print Assumptions C19_major_history.
+
+(* non-vacuity: the history of C19_minor_example without its version report, under 1.5 and under 2.1,
+   on a registry in which every referenced node and child is known *)
+Definition major_w0 : world :=
+  w_add_child (w_put_node (w_add_child (w_put_node (init_world true) (mk_node 1 17 (lit "2.0") [] [] 0 0 false true)) 1 0 3 [])
+                          (mk_node 2 17 (lit "2.0") [] [] 0 0 false false)) 2 0 3 [].
+Definition major_ops : list op :=
+  [OSend (mk_msg 1 0 1 0 2 (lit "1")) true []; ORecv (lit "2;255;3;0;0;77") []; ORecv (lit "1;0;1;0;2;0") [];
+   ORecv (lit "9;255;3;0;3;") [true]; OReconnect; ORecv (lit "2;0;2;0;2;") []; ORecv (lit "2;255;3;0;6;") [];
+   ORecv (lit "2;0;1;0;2;5") []; ORecv (lit "2;0;2;0;2;") []].
+
+Example C19_major_example :
+  major_history_ok sim_bat sim_vlt 0 [2; 14] 1 (pin "1.5" 1 major_w0) major_ops
+  /\ Rmw 1 3 (pin "1.5" 1 major_w0) (pin "2.1" 3 major_w0)
+  /\ map snd (trace sim_bat sim_vlt 0 (pin "1.5" 1 major_w0) major_ops) = map snd (trace sim_bat sim_vlt 0 (pin "2.1" 3 major_w0) major_ops)
+  /\ List.length (List.concat (map snd (trace sim_bat sim_vlt 0 (pin "1.5" 1 major_w0) major_ops))) = 3%nat.
+Proof.
+  split; [|split; [|split]].
+  - unfold major_ops.
+    Ltac recv_ok := split; [intros m E; vm_compute in E; injection E as <-; vm_compute;
+                              repeat split; try reflexivity; try congruence;
+                              try (intros K; try discriminate K; try congruence; destruct K; congruence)
+                           |split; [vm_compute; first [exact I|reflexivity]|]].
+    Ltac other_ok := split; [exact I|split; [vm_compute; first [exact I|reflexivity]|]].
+    cbn [major_history_ok]. other_ok. cbn [major_history_ok]. recv_ok. cbn [major_history_ok]. recv_ok.
+    cbn [major_history_ok]. recv_ok. cbn [major_history_ok]. other_ok. cbn [major_history_ok]. recv_ok.
+    cbn [major_history_ok]. recv_ok. cbn [major_history_ok]. recv_ok. cbn [major_history_ok]. recv_ok.
+    exact I.
+  - split; [repeat split|split; reflexivity].
+  - vm_compute. reflexivity.
+  - vm_compute. reflexivity.
+Qed.
